@@ -59,6 +59,7 @@ def layout(iout, contact):
                 used = iout[ip]; ip += 1
                 lay += [('pos' if used else 'dead', 0), ('pos' if used else 'dead', 1), ('pos' if used else 'dead', 2)]
                 if contact == 1: ip += 3
+                ip += 1          # "force is zero" flag
             ip += 7 * nf
     return lay
 
